@@ -364,6 +364,10 @@ const (
 	OutAuto  = 2 // length + hash, and the bytes too when there are at most SmallOut of them
 )
 
+// UniformDstSizes are the destination buffer capacities of the streaming re-decodes (every call gets a fresh buffer of
+// that capacity): powers of two put every buffer start at the same position of a 32 KiB history ring, the others do not.
+var UniformDstSizes = []int{256, 300, 1000, 1024, 4096, 4097, 32768, 65536}
+
 // SmallOut is the OutAuto threshold.
 const SmallOut = 8192
 
